@@ -102,9 +102,13 @@ def run_one(choices, params):
         if reentrant:
             held.append(conn._netref_factory(("builtins.list", 4242, 4343)))
             fired = [False]
+            fire_at = [w.draw(7)]       # which transport write triggers the finalizer: possibly the 2nd or 3rd write of one packet
 
             def hook(sock, data):
                 if held and not fired[0] and sim.current is not sim.root:
+                    if fire_at[0] > 0:
+                        fire_at[0] -= 1
+                        return
                     fired[0] = True
                     sim.count("c12:reentrant-send")
                     held.pop()          # refcount -> 0: the real finalizer sends HANDLE_DEL from inside this write
